@@ -55,7 +55,15 @@ pub enum Damage {
 
 #[derive(Clone, Debug, Hash, Serialize, Deserialize)]
 pub enum Case {
-    Stream { lz11: bool, tokens: Vec<Tok>, entry: Entry, damage: Damage },
+    Stream {
+        lz11: bool,
+        tokens: Vec<Tok>,
+        entry: Entry,
+        damage: Damage,
+        /// LZ11 only: use the extended-length header; Some(0) = declare the true length, Some(n) = declare n instead
+        #[serde(default)]
+        ext: Option<u32>,
+    },
     /// type-0 stored form through the LZ13 entry point: [0, len24] + data (+ damage: declared length off by `len_delta`)
     Stored { data: Vec<u8>, len_delta: i8, via_format: bool },
     /// arbitrary bytes to every entry point
@@ -162,7 +170,7 @@ fn classify_bare(bytes: &[u8], accept10: bool, accept11: bool) -> (Expect, &'sta
         Err(Malformed::BadType(_)) => (Expect::Err, "malformed:unknown-type"),
         Err(Malformed::Truncated { .. }) => (Expect::Err, "malformed:truncated"),
         Err(Malformed::BeforeStart { .. }) => (Expect::Err, "malformed:before-start"),
-        Err(Malformed::ExtendedHeader) => (Expect::NoPanicOnly, "dont-care:extended-header"),
+        Err(Malformed::ExtendedHeader) => (Expect::NoPanicOnly, "dont-care:extended-header>64MiB"),
         Err(Malformed::Overshoot { .. }) => (Expect::NoPanicOnly, "dont-care:overshoot"),
         Err(Malformed::Trailing { .. }) => (Expect::NoPanicOnly, "dont-care:trailing-bytes"),
     }
@@ -219,10 +227,17 @@ fn build(case: &Case, cap: usize) -> Vec<(Entry, Built)> {
             let e = if *via_format { Entry::Format13Wrapped([0; 3]) } else { Entry::Lz13Bare };
             vec![(e, Built { bytes, expect, class })]
         }
-        Case::Stream { lz11, tokens, entry, damage } => {
+        Case::Stream { lz11, tokens, entry, damage, ext } => {
             let kind = if *lz11 { Kind::Lz11 } else { Kind::Lz10 };
             let toks = build_tokens(*lz11, tokens, cap);
-            let mut bytes = reflz::encode(kind, &toks);
+            let mut bytes = match (lz11, ext) {
+                (true, Some(d)) => {
+                    let true_len = reflz::expand(&toks).map(|v| v.len()).unwrap_or(0) as u32;
+                    reflz::encode_extended(&toks, if *d == 0 { true_len } else { *d })
+                }
+                _ => reflz::encode(kind, &toks),
+            };
+            let hdr = if *lz11 && ext.is_some() { 8 } else { 4 };
             match damage {
                 Damage::None => {}
                 Damage::Prefix(sel) => {
@@ -233,6 +248,7 @@ fn build(case: &Case, cap: usize) -> Vec<(Entry, Built)> {
                     let refs = reference_positions(kind, &toks);
                     if !refs.is_empty() {
                         let (pos, size, produced) = refs[map_index(*sel, refs.len())];
+                        let pos = pos + hdr - 4;
                         // displacement field := produced + extra  (i.e. disp = produced + extra + 1 > produced)
                         let d = produced + *extra as usize;
                         if d <= 0xFFF {
@@ -357,7 +373,7 @@ impl Prop for C11 {
          wrapper bytes) and CompressionFormat::LZ13; plus the type-0 stored form. Malformed inputs: every class of the statement - empty, 1..3 bytes, unknown type byte, strict prefixes \
          (bounded-exhaustive: every prefix of a fixed list of streams), one reference rewritten to reach before the output start, single-byte corruption, trailing garbage, random bytes. \
          Three-way oracle driven by the reference reader: well-formed and exactly terminated => Ok(expand(tokens)); empty / shorter than a header / unknown type / truncated / before-start => Err; \
-         anything else (trailing bytes, overshooting final reference, LZ11 stream at the LZ10 entry, wrapped LZ10, extended LZ11 header, stored form with wrong length) => no panic only. \
+         anything else (trailing bytes, overshooting final reference, LZ11 stream at the LZ10 entry, wrapped LZ10, an extended LZ11 header declaring > 64 MiB, stored form with wrong length) => no panic only. LZ11 streams behind the extended-length header (zero 24-bit length + 32-bit length) are classified like any other stream, incl. declarations of 16 MiB+ with a truncated / before-start body. \
          No panic and no abort in either build. Non-trivial: a well-formed stream containing a reference the library's own compressor never emits (disp = 1 or length > 4096), or a malformed input of the \
          truncated / before-start / short classes. Distinct = distinct case value."
             .into()
@@ -365,7 +381,7 @@ impl Prop for C11 {
     fn assumptions() -> Vec<String> {
         vec![
             "reflz (harness/src/refimpl/reflz.rs) defines well-formedness and expansion".into(),
-            "output of generated streams is capped at 192 KiB (quick) / 1 MiB (thorough); the LZ11 extended-length header is outside the property (interpretation 15)".into(),
+            "output of generated streams is capped at 1 MiB; extended-length LZ11 headers are honoured up to a declared 64 MiB (the decoder library documents them), beyond that only panic-freedom".into(),
         ]
     }
     fn both_builds() -> bool {
@@ -377,8 +393,13 @@ impl Prop for C11 {
     fn strategy(tier: Tier) -> BoxedStrategy<Case> {
         let maxtok = tier.pick(40usize, 120);
         let stream = any::<bool>().prop_flat_map(move |lz11| {
-            (proptest::collection::vec(tok_strategy(lz11), 0..maxtok), entry_strategy(lz11), damage_strategy())
-                .prop_map(move |(tokens, entry, damage)| Case::Stream { lz11, tokens, entry, damage })
+            (
+                proptest::collection::vec(tok_strategy(lz11), 0..maxtok),
+                entry_strategy(lz11),
+                damage_strategy(),
+                prop_oneof![12 => Just(None), 2 => Just(Some(0u32)), 1 => proptest::sample::select(vec![0x0100_0000u32, 0x0100_0004, 0x00FF_FFFF, 0x0200_0000, 1, 35]).prop_map(Some)],
+            )
+                .prop_map(move |(tokens, entry, damage, ext)| Case::Stream { lz11, tokens, entry, damage, ext: if lz11 { ext } else { None } })
         });
         prop_oneof![
             12 => stream,
@@ -447,21 +468,29 @@ impl Prop for C11 {
                 vec![Entry::Lz10, Entry::Format10, Entry::Lz13Bare]
             };
             for entry in entries {
-                if !emit(Case::Stream { lz11, tokens: toks.clone(), entry: entry.clone(), damage: Damage::None }) {
+                if lz11 {
+                    // the same stream behind an extended-length header: true length, and a 16 MiB+ declaration with a bad reference
+                    for (ext, damage) in [(Some(0u32), Damage::None), (Some(0), Damage::Prefix(40000)), (Some(0x0100_0000), Damage::BeforeStart(1, 0)), (Some(0x0100_0004), Damage::BeforeStart(40000, 1)), (Some(0x0100_0000), Damage::None)] {
+                        if !emit(Case::Stream { lz11, tokens: toks.clone(), entry: entry.clone(), damage, ext }) {
+                            return;
+                        }
+                    }
+                }
+                if !emit(Case::Stream { lz11, tokens: toks.clone(), entry: entry.clone(), damage: Damage::None, ext: None }) {
                     return;
                 }
                 for cut in 0..n {
                     // selector that maps exactly onto `cut`
                     let sel = (((cut as u64) << 16) / n as u64 + 1).min(65535) as u16;
                     let sel = if map_index(sel, n) == cut { sel } else { sel.saturating_sub(1) };
-                    if !emit(Case::Stream { lz11, tokens: toks.clone(), entry: entry.clone(), damage: Damage::Prefix(sel) }) {
+                    if !emit(Case::Stream { lz11, tokens: toks.clone(), entry: entry.clone(), damage: Damage::Prefix(sel), ext: None }) {
                         return;
                     }
                 }
                 for r in 0..nrefs {
                     let sel = ((((r as u64) << 16) / nrefs as u64) + 1).min(65535) as u16;
                     for extra in 0..2u8 {
-                        if !emit(Case::Stream { lz11, tokens: toks.clone(), entry: entry.clone(), damage: Damage::BeforeStart(sel, extra) }) {
+                        if !emit(Case::Stream { lz11, tokens: toks.clone(), entry: entry.clone(), damage: Damage::BeforeStart(sel, extra), ext: None }) {
                             return;
                         }
                     }
@@ -510,12 +539,12 @@ impl Prop for C11 {
     }
     fn shrink(c: &Case) -> Vec<Case> {
         match c {
-            Case::Stream { lz11, tokens, entry, damage } if !tokens.is_empty() => {
+            Case::Stream { lz11, tokens, entry, damage, ext } if !tokens.is_empty() => {
                 let mut v = Vec::new();
                 for i in 0..tokens.len().min(64) {
                     let mut t = tokens.clone();
                     t.remove(i);
-                    v.push(Case::Stream { lz11: *lz11, tokens: t, entry: entry.clone(), damage: damage.clone() });
+                    v.push(Case::Stream { lz11: *lz11, tokens: t, entry: entry.clone(), damage: damage.clone(), ext: *ext });
                 }
                 v
             }
@@ -559,7 +588,8 @@ impl Prop for C11 {
             // non-triviality
             match &b.expect {
                 Expect::Ok(_) => {
-                    if let Case::Stream { lz11, tokens, .. } = case {
+                    if let Case::Stream { lz11, tokens, ext, .. } = case {
+                        cx.label_if(ext.is_some(), "well-formed:extended-header");
                         let toks = build_tokens(*lz11, tokens, cap);
                         let unusual = toks.iter().any(|t| matches!(t, Token::Ref { len, disp } if *disp == 1 || *len > 4096));
                         if unusual {
